@@ -115,9 +115,7 @@ Proof.
     destruct (t =? 66) eqn:E66.
     { apply N.eqb_eq in E66. subst t. change (66 =? 10) with false. cbn iota.
       unfold g_positions. cbn [flat_map fst snd]. change (66 =? 133) with false. cbn iota. cbn [app].
-      destruct (len d <? 2); [discriminate|].
-      destruct (read_u16 d) as [cp|e| |]; cbn [obind] in H; try discriminate.
-      destruct (cp =? 1200); [|discriminate]. apply (IH _ _ H). }
+      destruct (len d <? 2); [discriminate|]. apply (IH _ _ H). }
     destruct (t =? 34) eqn:E34.
     { apply N.eqb_eq in E34. subst t. change (34 =? 10) with false. cbn iota.
       unfold g_positions. cbn [flat_map fst snd]. change (34 =? 133) with false. cbn iota. cbn [app].
@@ -232,9 +230,13 @@ Proof.
   intros [t b] H. unfold xjunk_ok in H. cbn [fst snd] in *.
   apply andb_true_iff in H. destruct H as [H H3]. apply andb_true_iff in H. destruct H as [H1 H2].
   assert (Ht : t <> 60 /\ t <> 10 /\ t <> 252 /\ t <> 133).
-  { apply orb_true_iff in H1. destruct H1 as [H1|H1]; [apply orb_true_iff in H1; destruct H1 as [H1|H1]|].
+  { apply orb_true_iff in H1. destruct H1 as [H1|H1];
+      [apply orb_true_iff in H1; destruct H1 as [H1|H1];
+       [apply orb_true_iff in H1; destruct H1 as [H1|H1]|]|].
     - apply negb_true_iff in H1. unfold xls_interpreted in H1.
       repeat (apply orb_false_iff in H1; destruct H1 as [H1 ?]). repeat split; lia.
+    - apply andb_true_iff in H1. destruct H1 as [H1 _]. apply N.eqb_eq in H1. subst t.
+      repeat split; discriminate.
     - apply andb_true_iff in H1. destruct H1 as [H1 _]. apply N.eqb_eq in H1. subst t.
       repeat split; discriminate.
     - apply andb_true_iff in H1. destruct H1 as [H1 _]. apply N.eqb_eq in H1. subst t.
@@ -367,10 +369,11 @@ Proof. intros. unfold u16_at, le16. cbn [app nth]. apply u16_le16. Qed.
 Lemma u16_at_le16_2 : forall a b rest, u16_at (le16 a ++ le16 b ++ rest) 2 = b.
 Proof. intros. unfold u16_at, le16. cbn [app nth]. apply u16_le16. Qed.
 
-Lemma gitem_not_interp : forall t, negb (xls_interpreted t) = true ->
+Lemma gitem_not_interp : forall t, negb (xls_interpreted t) || (t =? 66) = true ->
   t <> 224 /\ t <> 1054.
 Proof.
-  intros t H. apply negb_true_iff in H. unfold xls_interpreted in H.
+  intros t H. apply orb_true_iff in H. destruct H as [H|H]; [|split; lia].
+  apply negb_true_iff in H. unfold xls_interpreted in H.
   repeat (apply orb_false_iff in H; destruct H as [H ?]). split; lia.
 Qed.
 
